@@ -327,3 +327,26 @@ func (s *Std) WarmUpThenReconfigure(enc string) {
 	sp.AssertionConsumerServiceURL, sp.ServiceProviderSLOURL, sp.IdentityProviderIssuer, sp.AudienceURI = acs, slo, iss, aud
 	s.R.Fault("sp_reconfigured_live")
 }
+
+// OtherAPICalls lets the application use the SP for other things before the call under test: it asks for
+// both metadata variants and the certificates (what&1), builds (and drops) an unsigned message of every kind
+// (what&2), asks for the signing context and a redirect URL (what&4). None of that is configuration: what the
+// SP answers afterwards is what it would have answered anyway.
+func OtherAPICalls(r *core.Run, sp *saml2.SAMLServiceProvider, what int) {
+	if what&1 != 0 {
+		world.Guard(func() error { _, e := sp.Metadata(); return e })
+		world.Guard(func() error { _, e := sp.MetadataWithSLO(24); return e })
+		world.Guard(func() error { _, e := sp.GetSigningCertBytes(); return e })
+		world.Guard(func() error { _, e := sp.GetEncryptionCertBytes(); return e })
+	}
+	if what&2 != 0 {
+		world.Guard(func() error { _, e := sp.BuildAuthRequestDocumentNoSig(); return e })
+		world.Guard(func() error { _, e := sp.BuildLogoutRequestDocumentNoSig("someone", "s0"); return e })
+		world.Guard(func() error { _, e := sp.BuildLogoutResponseDocumentNoSig(saml2.StatusCodeSuccess, "_r0"); return e })
+	}
+	if what&4 != 0 {
+		world.Guard(func() error { sp.SigningContext(); return nil })
+		world.Guard(func() error { _, e := sp.BuildAuthURL("rs"); return e })
+	}
+	r.Fault("other_api_calls_on_the_same_sp_first")
+}
